@@ -70,14 +70,18 @@ class ProbeConnection(_sqlite3.Connection):
         verb = verb_of(sql)
         if verb == 'PRAGMA':
             return super().execute(sql, *args)
-        PROBE.gate('pre:' + verb, sql)
+        PROBE.gate('pre:' + verb, (sql, self))
         try:
             cur = super().execute(sql, *args)
         except BaseException as exc:
             PROBE.gate('err:' + verb, (sql, exc))
             raise
-        PROBE.gate('post:' + verb, sql)
+        PROBE.gate('post:' + verb, (sql, self))
         return cur
+
+    def raw_execute(self, sql, *args):
+        """Bypass the gates (used by fault injection to mimic SQLite's own rollback)."""
+        return super().execute(sql, *args)
 
 
 class _SqliteProxy(types.ModuleType):
@@ -108,7 +112,11 @@ class _FileProxy:
         return n
 
     def close(self):
-        PROBE.gate('pre:fclose', self._path)
+        try:
+            PROBE.gate('pre:fclose', self._path)
+        except BaseException:
+            self._f.close()      # an injected close error still releases the descriptor
+            raise
         self._f.close()
         PROBE.gate('post:fclose', self._path)
 
